@@ -54,6 +54,11 @@ class Program(object):
         if npath and "::" in npath:
             head, rest = npath.split("::", 1)
             # `<T as Trait>::m` spellings are not resolved across crates
+            if (head, False) not in self.crates and head in ("lexgen_util",):
+                try:
+                    self.crate(head)
+                except facts.BuildFailure:
+                    pass
             for (name, test), c in list(self.crates.items()):
                 if name == head and not test:
                     b = c.body(rest)
